@@ -305,7 +305,7 @@ impl Case for WCase {
 fn enumerate(args: &Args) -> Vec<WCase> {
     let th = args.tier == "thorough";
     let mut v = Vec::new();
-    for pop in 0..=(if th { 4 } else { 3 }) {
+    for pop in 0..=(if th { 5 } else { 4 }) {
         for inv in [false, true] {
             v.push(WCase::Pop { pop, inv });
         }
